@@ -15,6 +15,8 @@ import (
 func init() { registerLeg("c12-errexit", "C12", legC12ErrExit) }
 
 func legC12ErrExit(c *Ctx) {
+	c12PoolMu.Lock()
+	defer c12PoolMu.Unlock()
 	c.Rule("directed histories on one shared Regexp per (pattern, direction): a Replace / ReplaceFunc / FindAll / Split that matches at least once and then fails with ErrBacktrackingStackLimit on a later scan (limit 65), followed by the same kind of call with the SAME replacement string on benign texts; every result is compared with the same call on a freshly compiled Regexp; patterns `\\d|(?:ab?)*c` left-to-right and `\\d|c(?:ab?)*` right-to-left, replacement strings with several rules; non-trivial = every history")
 	type spec struct {
 		pat     string
